@@ -22,7 +22,10 @@ EXPLANATION = (
     "Lower::new calls recover exactly for Init::Recover, free_all for FreeAll, reserve_all for AllocAll, nothing for None; "
     "NvmAlloc::create maps recover=true to Init::Recover and false to Init::FreeAll. R-REBUILD-ORDER: in LLFree::new a successful "
     "Lower::new dominates Trees::new, whose initialiser is |start| lower.stats_at(FrameId(start), TREE_ORDER).free_frames of that "
-    "lower; Trees::new stores Tree::with(tree_init(i * TREE_FRAMES), false, default) in entry i."
+    "lower; Trees::new stores Tree::with(tree_init(i * TREE_FRAMES), false, default) in entry i. R-RECOVER-COMPLETE: an entry is "
+    "skipped only when its huge frame starts at or beyond frames(); a repair is skipped only when the counted zeros equal the recorded "
+    "state. R-SPLIT-ORDER (shared with C03): partial_put_huge fills the bitfield before it clears the huge marker - in the opposite "
+    "order a crash between the two writes leaves a non-huge entry over an all-zero bitfield, which recovery turns into 512 free frames."
 )
 
 RECOVER = "llfree::lower::Lower::recover"
@@ -383,6 +386,9 @@ def r_rebuild_order(rep, prog):
 
 def run(rep, programs):
     prog = programs["core"]
+    # persistent write order of the one multi-step transition recovery cannot re-derive: splitting a huge frame
+    from props import c03
+    c03.r_split_order(rep, prog)
     r_recover_domain(rep, prog)
     r_recover_complete(rep, prog)
     r_recover_flow(rep, prog)
